@@ -574,12 +574,21 @@ func genConsCase(r *Rand, tier string, w *bufio.Writer) {
 	if twoCheaters {
 		nv = 7
 	}
+	// "many validators" style: 13-20 validators with few distinct weights (many ties in the canonical order)
+	// and several cheaters
+	manyValidators := !slowQuorum && !twoCheaters && r.Chance(1, 10)
+	if manyValidators {
+		nv = 13 + r.Intn(8)
+	}
 	ids := make([]uint64, nv)
 	ws := make([]uint64, nv)
 	perm := r.Perm(20)
 	wkind := r.Intn(5)
 	if slowQuorum {
 		wkind = 0
+	}
+	if manyValidators {
+		wkind = []int{0, 0, 3}[r.Intn(3)]
 	}
 	var total uint64
 	for i := range ids {
@@ -616,7 +625,7 @@ func genConsCase(r *Rand, tier string, w *bufio.Writer) {
 	// quorum forms without it; when it is also the lagging validator its frame-jumping roots are the ones
 	// that decide several frames within one Process call
 	needed := -1
-	if nv >= 2 && total < 1<<29 && !slowQuorum && !twoCheaters && r.Chance(1, 2) {
+	if nv >= 2 && total < 1<<29 && !slowQuorum && !twoCheaters && !manyValidators && r.Chance(1, 2) {
 		needed = r.Intn(nv)
 		others := total - ws[needed]
 		ws[needed] = others/2 + 1 + uint64(r.Intn(int(others/2)+1))
